@@ -99,3 +99,13 @@ def _f17(v):
     d = v["detail"]
     return bool(d.get("unsat_member")) and (v["kind"].startswith("generated_value_rejected:")
                                             or v["kind"].startswith("fake_raised:"))
+
+
+@predicate("F13")
+def _f13(v):
+    d = v["detail"]
+    if v["kind"] in ("distinguishable_variant_compares_equal", "equal_schemas_different_verdicts"):
+        return d.get("only_ellipsis_vs_any") is True
+    if v["kind"] == "not_transitive":
+        return d.get("equal_links_only_via_marker_blindspot") is True
+    return False
